@@ -73,7 +73,7 @@ def gen_op(rng, kind, p):
     return [kind, {'study': ss(), 'trial': trial_sel(rng),
                    'ckind': rng.choice(['final', 'final', 'final', 'auto', 'infeasible',
                                         'infeasible+final', 'partial-final']),
-                   'v': rng.randrange(6), 'w': rng.randrange(6)}]
+                   'v': rng.randrange(6), 'w': rng.randrange(6), 'reason': rng.choice(['bad', 'bad', ''])}]
   if kind == 'UpdateMetadata':
     return [kind, {'study': ss(), 'items': md_items(rng, p.get('md_missing', True))}]
   if kind == 'GetOperation':
